@@ -9,6 +9,7 @@ import (
 	"os"
 	"path/filepath"
 	"strconv"
+	"strings"
 	"testing"
 
 	"github.com/resgateio/resgate/server/codec"
@@ -318,6 +319,81 @@ func TestTableModelDiff(t *testing.T) {
 			cb, nb := conv(b)
 			evs, res := rescache.VerifModelDiff(ca, cb)
 			tb.add(rec{"a": na, "b": nb, "ev": normEvents(evs), "res": nmodel(res)})
+		}
+	}
+}
+
+// TestTableValues: every value object over a bounded family of member
+// options, in the four places a service can put a value (model / collection
+// of a get response, change event, add event), through the real decoders.
+func TestTableValues(t *testing.T) {
+	tb := openTable(t, "values")
+	defer tb.close()
+	ridOpt := map[string]string{"none": "", "null": `"rid":null`, "valid": `"rid":"a.b"`, "query": `"rid":"a.b?q=1"`, "empty": `"rid":""`, "invalid": `"rid":"a..b"`, "wild": `"rid":"a.*"`, "number": `"rid":12`}
+	softOpt := map[string]string{"none": "", "true": `"soft":true`, "false": `"soft":false`, "null": `"soft":null`, "string": `"soft":"yes"`}
+	dataOpt := map[string]string{"none": "", "null": `"data":null`, "prim": `"data":1`, "string": `"data":"s"`, "object": `"data":{"k":1}`, "array": `"data":[1]`}
+	actOpt := map[string]string{"none": "", "null": `"action":null`, "delete": `"action":"delete"`, "other": `"action":"purge"`, "number": `"action":7`}
+	typeName := map[codec.ValueType]string{codec.ValueTypeNone: "none", codec.ValueTypeDelete: "delete", codec.ValueTypePrimitive: "prim",
+		codec.ValueTypeReference: "ref", codec.ValueTypeSoftReference: "soft", codec.ValueTypeData: "data"}
+	decode := func(ctx, raw string) (string, string) {
+		var v codec.Value
+		switch ctx {
+		case "getmodel":
+			r, err := codec.DecodeGetResponse([]byte(`{"result":{"model":{"k":` + raw + `}}}`))
+			if err != nil {
+				return "err", ""
+			}
+			v = r.Model["k"]
+		case "getcoll":
+			r, err := codec.DecodeGetResponse([]byte(`{"result":{"collection":[` + raw + `]}}`))
+			if err != nil {
+				return "err", ""
+			}
+			v = r.Collection[0]
+		case "change":
+			m, err := codec.DecodeChangeEvent(json.RawMessage(`{"values":{"k":` + raw + `}}`))
+			if err != nil {
+				return "err", ""
+			}
+			v = m["k"]
+		case "add":
+			d, err := codec.DecodeAddEvent(json.RawMessage(`{"idx":0,"value":` + raw + `}`))
+			if err != nil {
+				return "err", ""
+			}
+			v = d.Value
+		}
+		return typeName[v.Type], v.RID
+	}
+	ctxs := []string{"getmodel", "getcoll", "change", "add"}
+	for _, top := range []struct{ kind, raw string }{{"prim", "1"}, {"prim", `"s"`}, {"prim", "null"}, {"prim", "true"}, {"array", "[]"}, {"array", `[{"rid":"a"}]`}} {
+		for _, ctx := range ctxs {
+			ty, rid := decode(ctx, top.raw)
+			tb.add(rec{"top": top.kind, "rid": "none", "soft": "none", "data": "none", "action": "none", "extra": false, "ctx": ctx, "got": ty, "grid": rid})
+		}
+	}
+	for rk, rv := range ridOpt {
+		for sk, sv := range softOpt {
+			for dk, dv := range dataOpt {
+				for ak, av := range actOpt {
+					for _, extra := range []bool{false, true} {
+						parts := []string{}
+						for _, p := range []string{rv, sv, dv, av} {
+							if p != "" {
+								parts = append(parts, p)
+							}
+						}
+						if extra {
+							parts = append(parts, `"x":1`)
+						}
+						raw := "{" + strings.Join(parts, ",") + "}"
+						for _, ctx := range ctxs {
+							ty, rid := decode(ctx, raw)
+							tb.add(rec{"top": "object", "rid": rk, "soft": sk, "data": dk, "action": ak, "extra": extra, "ctx": ctx, "got": ty, "grid": rid})
+						}
+					}
+				}
+			}
 		}
 	}
 }
